@@ -271,12 +271,19 @@ def as_vec(v):
     return None
 
 
+SHAPE_HOOK = None  # set by the interpreter: called with the list of operand lengths of an element-wise operation
+
+
 def broadcast_len(*vs):
     n = None
+    lens = []
     for v in vs:
         if isinstance(v, Vec):
-            if n is None:
+            lens.append(v.n)
+            if n is None or (isinstance(n, int) and n == 1):
                 n = v.n
+    if SHAPE_HOOK is not None and len(lens) > 1:
+        SHAPE_HOOK(lens)
     return n
 
 
